@@ -56,6 +56,7 @@ type Config struct {
 	MaxDelayMs  int
 	Partition   int // chance per step (while no partition is active) to start one
 	Crash       int // chance per step to crash a running node at a quiescent point
+	CrashAtVoteWrite int // chance (per mille) per stimulus to arm a crash at that stimulus's first vote-record write
 	CrashAtK    int // chance per stimulus to arm a crash at the k-th disk write of that stimulus
 	MaxCrashes  int
 	TimerLate   int           // chance to hold back a node's due timers for a while
@@ -73,6 +74,8 @@ type nodeState struct {
 	// (goroutines spawned by the code under test post concurrently: guarded by obMu)
 	obMu   sync.Mutex
 	outbox []interface{}
+	// escaping: see Sim.escape
+	escaping bool
 	seen   map[common.Hash]bool // consensus frames already handled (what ProtocolManager keeps)
 	// timersHeldUntil: the node's due timers are not looked at before this time (stalled node)
 	timersHeldUntil time.Time
@@ -278,7 +281,7 @@ func (s *Sim) boot(ns *nodeState, disk *simdisk.Disk) error {
 	id, inc := ns.id, ns.incarnation
 	n.Mux.SimAttach(func(ev interface{}) {
 		// events emitted after the disk froze never happened: the process was dead
-		if disk.Frozen() || ns.incarnation != inc {
+		if (disk.Frozen() && !ns.escaping) || ns.incarnation != inc {
 			return
 		}
 		_ = id
@@ -599,6 +602,14 @@ func (s *Sim) stimulus(ns *nodeState, what string, f func()) {
 		ns.n.Disk.CrashAt(ns.n.Disk.LogLen() + k)
 		armed = true
 	}
+	if !armed && s.faultsOn() && s.cfg.CrashAtVoteWrite > 0 && s.crashes < s.cfg.MaxCrashes && ns.running && s.r.C.Chance("crash-at-vote-write", s.cfg.CrashAtVoteWrite, 1000) {
+		// fault placement: the window between persisting a vote record and handing the vote to
+		// the network. The crash lands on the first vote-record write of this stimulus (if any):
+		// just before it (record lost) or just after it (record durable, nothing later happens).
+		ns.n.Disk.CrashMatch = isVoteRecordKey
+		ns.n.Disk.CrashMatchBefore = s.r.C.Chance("before-the-write", 1, 2)
+		armed = true
+	}
 	done := make(chan interface{}, 1)
 	go func() {
 		defer func() {
@@ -627,10 +638,27 @@ func (s *Sim) stimulus(ns *nodeState, what string, f func()) {
 	if pv != nil {
 		panic(pv)
 	}
+	viaMatch := false
 	if armed {
+		if ns.n.Disk.CrashMatch != nil {
+			viaMatch = true
+			ns.n.Disk.CrashMatch = nil
+			if ns.n.Disk.Frozen() {
+				if ns.n.Disk.CrashMatchBefore {
+					s.r.Fault("crash.before-vote-record-write")
+				} else {
+					s.r.Fault("crash.after-vote-record-write")
+				}
+			}
+		}
 		if ns.n.Disk.Frozen() {
-			s.r.Fault("crash.at-kth-write")
+			if !viaMatch {
+				s.r.Fault("crash.at-kth-write")
+			}
 			s.r.Logf("n%d CRASH inside stimulus %s (disk frozen at write %d)", ns.id, what, ns.n.Disk.LogLen())
+			if s.r.C.Chance("sends-escape", 1, 2) {
+				s.escape(ns)
+			}
 			s.crash(ns)
 		} else {
 			ns.n.Disk.CrashAt(-1)
@@ -955,6 +983,62 @@ func (s *Sim) exchangeHeads() {
 		s.gossipBlockOnce(a.id, head)
 	}
 }
+
+// escape models that a process does not die in the program order of one goroutine: what the
+// dying goroutine had handed to the event mux BEFORE the write that was lost may still be
+// picked up by the process's other goroutines (MessageHandler.sendMsg signs and broadcasts
+// it) and reach the wire before the process is gone. Only send requests emitted before the
+// disk froze take part; nothing they cause is written (the disk stays frozen).
+func (s *Sim) escape(ns *nodeState) {
+	ns.obMu.Lock()
+	evs := ns.outbox
+	ns.outbox = nil
+	ns.obMu.Unlock()
+	var sends []interface{}
+	for _, ev := range evs {
+		if _, ok := ev.(ucon.SendMessageEvent); ok {
+			sends = append(sends, ev)
+		}
+	}
+	if len(sends) == 0 {
+		return
+	}
+	sort.SliceStable(sends, func(a, b int) bool { return eventKey(sends[a]) < eventKey(sends[b]) })
+	ns.escaping = true
+	for _, ev := range sends {
+		for _, sub := range ns.n.Mux.SimSubscribers(ev) {
+			sub, ev := sub, ev
+			done := make(chan struct{})
+			go func() {
+				defer close(done)
+				defer func() { recover() }()
+				sub.SimDeliver(ev)
+			}()
+			kit.Wait()
+		}
+	}
+	ns.escaping = false
+	ns.obMu.Lock()
+	out := ns.outbox
+	ns.outbox = nil
+	ns.obMu.Unlock()
+	sort.SliceStable(out, func(a, b int) bool { return eventKey(out[a]) < eventKey(out[b]) })
+	n := 0
+	for _, ev := range out {
+		if me, ok := ev.(ucon.MessageEvent); ok {
+			s.gossipFrame(ns, me)
+			n++
+		}
+	}
+	if n > 0 {
+		s.r.Fault("crash.sends-escaped-before-lost-write")
+		s.r.Logf("n%d %d frame(s) requested before the lost write reached the wire", ns.id, n)
+	}
+}
+
+// isVoteRecordKey recognises the keys of VoteDB records (vote_cache.go AddrTypeKey: "v" +
+// 20-byte address + vote kind + slot).
+func isVoteRecordKey(k string) bool { return len(k) == 23 && k[0] == 'v' }
 
 // crash stops a node whose disk is frozen: nothing but the disk image survives.
 func (s *Sim) crash(ns *nodeState) {
